@@ -97,7 +97,11 @@ class Eval:
             raise Undecided('bitwise and in {}'.format(text))
         if isinstance(node, ast.BinOp):
             if isinstance(node.op, ast.Mod):
-                if unparse(node.right) != self.n_expr:
+                is_n = unparse(node.right) == self.n_expr
+                if not is_n and isinstance(node.right, ast.Name) and node.right.id in env:
+                    bound = env[node.right.id]
+                    is_n = isinstance(bound, F) and bound.key() == (0, 1, 0)       # a local bound to the alignment itself
+                if not is_n:
                     raise Undecided('modulus other than the alignment: {}'.format(text))
                 x = self.ev_p(node.left, env)
                 return self.mod_n(x, text)
@@ -190,7 +194,13 @@ class Eval:
         for i, st in enumerate(body):
             if isinstance(st, ast.Return):
                 return self.ev(st.value, env)
-            if isinstance(st, ast.Assign) and isinstance(st.targets[0], ast.Name):
+            if (isinstance(st, ast.Assign) and isinstance(st.targets[0], ast.Tuple) and len(st.targets[0].elts) == 2 and all(isinstance(e, ast.Name) for e in st.targets[0].elts)
+                    and isinstance(st.value, ast.Call) and isinstance(st.value.func, ast.Name) and st.value.func.id == 'divmod' and len(st.value.args) == 2 and not st.value.keywords):
+                # q, r = divmod(x, N): r is x % N; the quotient has no linear form (any later use of it ends the evaluation)
+                qn, rn = (e.id for e in st.targets[0].elts)
+                env[rn] = self.ev(ast.copy_location(ast.BinOp(left=st.value.args[0], op=ast.Mod(), right=st.value.args[1]), st.value), env)
+                env.pop(qn, None)
+            elif isinstance(st, ast.Assign) and isinstance(st.targets[0], ast.Name):
                 env[st.targets[0].id] = self.ev(st.value, env)
             elif isinstance(st, ast.If):
                 t = self.test(st.test, env)
